@@ -48,6 +48,9 @@ def get_none_environment():
 
 def get_base_environment(secure=True, legacy=True):
     result = get_none_environment()
+    # the mode of the interpreter, out of reach of programs (a program may
+    # define a variable named checkerlang_secure_mode, but not this)
+    result.secure_mode = secure
     result.put("checkerlang_secure_mode", ValueBoolean.fromval(secure))
     # MAXINT and MININT are kind of arbitrary, since python supports
     # arbitrary precision numbers. But they are the largest values
@@ -462,10 +465,14 @@ def bind_native(environment, native, alias=None):
 
 
 def bind_native_fun(environment, func, alias=None):
+    # an environment chain that does not end in an interpreter's base
+    # environment (a caller-supplied environment that has been detached
+    # again, kept alive by a closure) is treated as secure
+    base = environment.getBase()
     if (
-        environment.getBase().get("checkerlang_secure_mode").value
-        and not func.secure
-    ):
+        getattr(base, "secure_mode", True)
+        or base.get("checkerlang_secure_mode").value
+    ) and not func.secure:
         return
     add(environment, func, alias)
 
